@@ -306,9 +306,9 @@ pub fn sort_to_indices(
             _ => unreachable!()
         }
         DataType::RunEndEncoded(run_ends_field, _) => match run_ends_field.data_type() {
-            DataType::Int16 => sort_run_to_indices::<Int16Type>(array, options, limit),
-            DataType::Int32 => sort_run_to_indices::<Int32Type>(array, options, limit),
-            DataType::Int64 => sort_run_to_indices::<Int64Type>(array, options, limit),
+            DataType::Int16 => sort_run_to_indices::<Int16Type>(array, options, limit)?,
+            DataType::Int32 => sort_run_to_indices::<Int32Type>(array, options, limit)?,
+            DataType::Int64 => sort_run_to_indices::<Int64Type>(array, options, limit)?,
             dt => {
                 return Err(ArrowError::ComputeError(format!(
                     "Invalid run end data type: {dt}"
@@ -731,7 +731,8 @@ fn sort_run_downcasted<R: RunEndIndexType>(
         new_run_ends.push(R::Native::from_usize(new_run_end).unwrap());
     };
 
-    let (values_indices, run_values) = sort_run_inner(run_array, options, output_len, consume_runs);
+    let (values_indices, run_values) =
+        sort_run_inner(run_array, options, output_len, consume_runs)?;
 
     let new_run_ends = unsafe {
         // Safety:
@@ -771,7 +772,7 @@ fn sort_run_to_indices<R: RunEndIndexType>(
     values: &dyn Array,
     options: SortOptions,
     limit: Option<usize>,
-) -> UInt32Array {
+) -> Result<UInt32Array, ArrowError> {
     let run_array = values.as_any().downcast_ref::<RunArray<R>>().unwrap();
     let output_len = if let Some(limit) = limit {
         limit.min(run_array.len())
@@ -784,9 +785,9 @@ fn sort_run_to_indices<R: RunEndIndexType>(
     let consume_runs = |run_length, logical_start| {
         result.extend(logical_start as u32..(logical_start + run_length) as u32);
     };
-    sort_run_inner(run_array, Some(options), output_len, consume_runs);
+    sort_run_inner(run_array, Some(options), output_len, consume_runs)?;
 
-    UInt32Array::from(result)
+    Ok(UInt32Array::from(result))
 }
 
 fn sort_run_inner<R: RunEndIndexType, F>(
@@ -794,7 +795,7 @@ fn sort_run_inner<R: RunEndIndexType, F>(
     options: Option<SortOptions>,
     output_len: usize,
     mut consume_runs: F,
-) -> (PrimitiveArray<UInt32Type>, ArrayRef)
+) -> Result<(PrimitiveArray<UInt32Type>, ArrayRef), ArrowError>
 where
     F: FnMut(usize, usize),
 {
@@ -805,7 +806,7 @@ where
     let run_values = run_array.values().slice(start_physical_index, physical_len);
 
     // All the values have to be sorted irrespective of input limit.
-    let values_indices = sort_to_indices(&run_values, options, None).unwrap();
+    let values_indices = sort_to_indices(&run_values, options, None)?;
 
     let mut remaining_len = output_len;
 
@@ -862,7 +863,7 @@ where
     if remaining_len > 0 {
         panic!("Remaining length should be zero its values is {remaining_len}")
     }
-    (values_indices, run_values)
+    Ok((values_indices, run_values))
 }
 
 /// One column to be used in lexicographical sort
